@@ -182,6 +182,90 @@ theorem ret_rsp (s s' : Machine) (i : Instr) (h : execRet s i = .ok s') :
         rw [hrip]
         simp [setRip, Regs.set]
 
+/-- a successful RET pops the shadow call stack -/
+theorem ret_callstack (s s' : Machine) (i : Instr) (h : execRet s i = .ok s') :
+    s'.callStack = s.callStack.dropLast := by
+  simp only [execRet] at h
+  split at h
+  · cases h
+  · split at h
+    · cases h
+    · cases h
+    · split at h
+      · cases h
+      · cases h
+      · rename_i s2 hs2
+        simp only [ExecRes.ok.injEq] at h
+        subst h
+        simp only [addTrace, Out.ok.injEq] at hs2
+        subst hs2
+        simp [setRip]
+
+/-- what a successful near CALL leaves: return address pushed, RIP at the target, the target on the call stack -/
+theorem call_spec (s s1 : Machine) (i : Instr) (t : BitVec 64) (h : execCallTo s i t = .ok s1) :
+    ∃ sp, pushRip s = .ok sp ∧ s1.mem = sp.mem ∧ s1.regs.gpr = sp.regs.gpr ∧ s1.regs.rip = t ∧
+      s1.callStack = s.callStack ++ [t.toNat] := by
+  unfold execCallTo at h
+  cases hp : pushRip s with
+  | err => simp [hp] at h
+  | panic => simp [hp] at h
+  | ok sp =>
+    simp only [hp, addTrace, setRip, Out.ok.injEq] at h
+    subst h
+    refine ⟨sp, rfl, rfl, rfl, rfl, ?_⟩
+    -- the push changes memory and RSP only
+    have : sp.callStack = s.callStack := by
+      simp only [pushRip, pushVal] at hp
+      split at hp
+      · rename_i s' hw
+        simp only [Out.ok.injEq] at hp
+        subst hp
+        unfold writeMem Machine.withMem at hw
+        split at hw
+        · simp only [Out.ok.injEq] at hw; subst hw; rfl
+        · cases hw
+        · cases hw
+      · cases hp
+      · cases hp
+    simp [this]
+
+/-- **`call T` followed by `ret`, from decoded instructions**: the call goes to T with the return address (the RIP the
+    step frame had already advanced to the next instruction) on the stack and T on the call stack; the RET — unless it is
+    the top-level one — comes back to exactly that address with RSP and the call stack as they were before the call. -/
+theorem call_then_ret (hh : HasHooks) (i1 i2 : Instr) (s s1 s2 : Machine)
+    (hm : s.mem.WF) (hno : NoOverlap s.mem)
+    (hl1 : lookup i1.code = some .callNear) (hl2 : lookup i2.code = some .ret)
+    (h1 : exec hh i1 s = .ok s1) (h2 : exec hh i2 s1 = .ok s2) :
+    s1.regs.rip = i1.nearBranch ∧ s1.callStack = s.callStack ++ [i1.nearBranch.toNat] ∧
+    s2.regs.rip = s.regs.rip ∧ s2.regs.get RSP = s.regs.get RSP ∧ s2.callStack = s.callStack := by
+  unfold exec at h1
+  simp only [hl1] at h1
+  split at h1
+  · have hc : execCallTo s i1 i1.nearBranch = .ok s1 := by
+      cases he : execCallTo s i1 i1.nearBranch with
+      | err => simp [he, ExecRes.ofOut] at h1
+      | panic => simp [he, ExecRes.ofOut] at h1
+      | ok x => simp only [he, ExecRes.ofOut, ExecRes.ok.injEq] at h1; rw [h1]
+    obtain ⟨sp, hp, hmem, hgpr, hrip, hcs⟩ := call_spec s s1 i1 _ hc
+    have hrsp := (push_rsp s sp 8 s.regs.rip hp).1
+    unfold exec at h2
+    simp only [hl2] at h2
+    obtain ⟨hr2, hread⟩ := ret_rsp s1 s2 i2 h2
+    have hcs2 := ret_callstack s1 s2 i2 h2
+    have hs1rsp : s1.regs.get RSP = sp.regs.get RSP := by simp [Regs.get, hgpr]
+    -- the load the RET performs is the load after the push
+    have hread' : readMem sp 64 (sp.regs.get RSP + 8) = .ok s2.regs.rip := by
+      rw [hs1rsp] at hread
+      simpa [readMem, hmem] using hread
+    have hv := call_ret_roundtrip s sp hm hno hp s2.regs.rip hread'
+    refine ⟨hrip, hcs, hv, ?_, ?_⟩
+    · rw [hr2, hs1rsp, hrsp]
+      generalize s.regs.get RSP = x
+      bv_omega
+    · rw [hcs2, hcs]; simp
+  · cases h1
+
+
 /-! ## the full claim is false: the architectural slot is RSP − size, the model's (= the code's) is RSP -/
 
 /-- a machine with one RW page at 0x1000 and RSP in its middle -/
